@@ -313,6 +313,12 @@ func (te *TemplateEngine) RenderToDocument(templateName string, data *TemplateDa
 	}
 
 	verifPoint("template.afterGet")
+	return te.renderLoadedTemplateToDocument(template, templateName, data)
+}
+
+// renderLoadedTemplateToDocument 渲染一个已经取到的模板对象（调用方只查找一次模板名：
+// 渲染过程中同名模板被重新加载，不会让一次渲染用到两个不同版本的模板）
+func (te *TemplateEngine) renderLoadedTemplateToDocument(template *Template, templateName string, data *TemplateData) (*Document, error) {
 	// 创建新文档
 	var doc *Document
 	if template.BaseDoc != nil {
@@ -1962,8 +1968,8 @@ func (te *TemplateEngine) RenderTemplateToDocument(templateName string, data *Te
 		return doc, nil
 	}
 
-	// 如果没有基础文档，使用原有的方式
-	return te.RenderToDocument(templateName, data)
+	// 如果没有基础文档，使用原有的方式（用已经取到的模板对象，不再按名字查找第二次）
+	return te.renderLoadedTemplateToDocument(template, templateName, data)
 }
 
 // replaceVariablesInDocument 在文档结构中直接替换变量
